@@ -73,6 +73,7 @@ exactly one newline is ESTABLISHED per part (``asm:part-ends-in-exactly-one-newl
 import io
 import os
 import random
+import re
 import unicodedata
 import warnings
 
@@ -229,7 +230,7 @@ MUST_REACH = ['debian.deb822:Deb822._internal_parser',
               'debian.deb822:_gpg_multivalued.__init__',
               'debian.deb822:_AutoDecoder.decode']
 
-DOCS = {'quick': 2450, 'thorough': 160000}      # random documents (TOTAL over shards); + the enumerated grids
+DOCS = {'quick': 2280, 'thorough': 152000}      # random documents (TOTAL over shards); + the enumerated grids
 UNI_EVERY = 5                                   # one random document in UNI_EVERY is a "uni" document
 
 FLOORS = {
@@ -506,6 +507,38 @@ for _tier, _table in ASM_FLOORS.items():
             for _api in ASM_APIS:
                 FLOORS[_tier]['counters']['asm:%s:%s' % (_rt, _api)] = _table['route_api']
 STRUCTURED = frozenset(['files', 'checksums-sha1', 'checksums-sha256', 'checksums-sha512'])
+# --- "mv" class: Dsc / Changes shaped documents - STRUCTURED (multivalued) fields + text that mentions PGP armour words ----------
+# The item format of the structured fields (model side; what the file formats say): number of whitespace-separated tokens of one
+# item line that the class reads as one record.
+MV_COLUMNS = {'Dsc': {'files': 3, 'checksums-sha1': 3, 'checksums-sha256': 3, 'checksums-sha512': 3},
+              'Changes': {'files': 5, 'checksums-sha1': 3, 'checksums-sha256': 3, 'checksums-sha512': 3}}
+GPG_APIS = ('Dsc', 'Changes', 'Dsc.iter_paragraphs', 'Changes.iter_paragraphs')
+MV_APIS = ('iter_paragraphs', 'Deb822') + GPG_APIS
+MV_DOCS = {'quick': 80, 'thorough': 6000}       # random "mv" documents (TOTAL over shards); + the enumerated mv / armour-word grids
+MV_FIELDS = (('files', 3), ('files', 5), ('checksums-sha1', 3), ('checksums-sha256', 3), ('checksums-sha512', 3))
+MV_SPELLINGS = {'files': ('Files', 'Files', 'Files', 'files', 'FILES'),
+                'checksums-sha1': ('Checksums-Sha1', 'Checksums-Sha1', 'checksums-sha1', 'Checksums-SHA1'),
+                'checksums-sha256': ('Checksums-Sha256', 'Checksums-Sha256', 'CHECKSUMS-SHA256', 'checksums-Sha256'),
+                'checksums-sha512': ('Checksums-Sha512', 'Checksums-Sha512', 'Checksums-SHA512')}
+MV_DIGEST = {'files': 32, 'checksums-sha1': 40, 'checksums-sha256': 64, 'checksums-sha512': 128}
+MV_LAYOUTS = ('cont', 'cont-blank-on-field-line', 'single-cont', 'single-cont-blank-on-field-line', 'mixed', 'mixed-trailing-blank',
+              'single', 'single-trailing-blank')
+MV_SEPS = (' ', ' ', ' ', ' ', '\t', '  ', ' \t', '\t\t', '     ', '\t ')
+MV_REDUMP_EVERY = 3          # every third Dsc / Changes form of an "mv" case is dumped again and re-parsed
+MV_REDUMP_ROUTES = ('str', 'fd_b', 'str()', 'fd_t', 'bytes()', 'fd_b_enc')
+MV_REDUMP_ROUTES_EXPLICIT = ('str', 'fd_b_enc', 'str()', 'fd_t')      # text routes + the binary route with encoding='utf-8' spelled out
+ARMOR_FIRST = ['see -----END PGP SIGNATURE----- below', 'see -----END PGP SIGNATURE-----', '-----BEGIN PGP SIGNED MESSAGE----- was here',
+               'x -----BEGIN PGP SIGNATURE-----', '-----END PGP SIGNATURE-----', '-----BEGIN PGP SIGNED MESSAGE-----',
+               '- -----BEGIN PGP SIGNED MESSAGE-----', 'a -----BEGIN PGP SIGNED MESSAGE----- b -----END PGP SIGNATURE----- c',
+               '-----END PGP MESSAGE-----', 'key: -----BEGIN PGP PUBLIC KEY BLOCK-----', '-----BEGIN PGP SIGNATURE-----',
+               'no -----END PGP SIGNED MESSAGE-----']
+ARMOR_CONT = [' see -----END PGP SIGNATURE----- below', ' -----BEGIN PGP SIGNED MESSAGE-----', '\t-----END PGP SIGNATURE-----',
+              ' . -----BEGIN PGP SIGNATURE-----', ' x-----END PGP SIGNATURE-----', '  -----BEGIN PGP SIGNATURE-----  ',
+              ' -----END PGP SIGNATURE----- x', ' * fix "-----BEGIN PGP SIGNED MESSAGE-----" handling', ' - -----BEGIN PGP SIGNATURE-----',
+              '\t\t-----BEGIN PGP SIGNED MESSAGE-----\t', ' -----END PGP SIGNED MESSAGE-----', ' -----BEGIN PGP SIGNATURE-----',
+              ' see -----BEGIN PGP SIGNED MESSAGE-----', ' -----END PGP SIGNATURE-----']
+ARMOR_MARK = re.compile(r'-----(?:BEGIN|END) PGP [^-]+-----')
+ARMOR_POSITIONS = ('first-whole', 'first-start', 'first-mid', 'first-end', 'cont-whole', 'cont-start', 'cont-mid', 'cont-end')
 
 # ---------------------------------------------------------------------------
 # workload generators (model side; no library code)
@@ -1069,6 +1102,172 @@ def last_field_shape(para):
     return 'single-line-trailing-blank' if first.rstrip(' \t') != first else 'single-line'
 
 
+# --- "mv" class: generators ------------------------------------------------------------------------------------------------
+MV_TEXT_NAMES = ['Format', 'Source', 'Binary', 'Architecture', 'Version', 'Maintainer', 'Uploaders', 'Homepage', 'Standards-Version',
+                 'Vcs-Browser', 'Build-Depends', 'Package-List', 'Description', 'Changes', 'Distribution', 'Urgency', 'Date', 'Closes',
+                 'Changed-By', 'Testsuite', 'X-Comment']
+MV_LONG_NAMES = ('Package-List', 'Description', 'Changes', 'Build-Depends', 'X-Comment')
+MV_HOSTILE = ['-', ':', 'K:', '#x', 'a=b', '-----BEGIN', '\xe9.deb', 'x:y', '.', '1:2.0-1', '漢_1.dsc', '(x)', '[a]', '{}', '-----',
+              'Files:', '=abcd', '~', '\\', '"q"']
+MV_SECTIONS = ('utils', 'non-free/libs', '-', 'devel', 'contrib/x11', 'debug', 'libs')
+MV_PRIORITIES = ('optional', '-', 'extra', 'required', 'important')
+MV_STEMS = ('pkg', 'libfoo', 'x', 'a-b+c', '\xe9', 'foo~rc1', 'z.z')
+MV_EXTS = ('.dsc', '.orig.tar.gz', '.debian.tar.xz', '_amd64.deb', '_all.deb', '_source.buildinfo', '_amd64.changes', '', '.tar.gz.asc')
+
+
+def mv_tokens(r, lname, ntok, i):
+    """The tokens of item number `i` (the number is part of the file name: loss, duplication, reordering are unambiguous)."""
+    dig = MV_DIGEST[lname]
+    digest = '%0*x' % (dig, r.getrandbits(4 * dig)) if r.random() < 0.7 else '%x' % r.getrandbits(r.choice([8, 16, 60]))
+    toks = [digest, str(r.randrange(10 ** r.randint(1, 10)))]
+    if ntok >= 5:
+        toks += [r.choice(MV_SECTIONS), r.choice(MV_PRIORITIES)]
+    toks.append('%s_%d.%d-%d%s' % (r.choice(MV_STEMS), i, r.randint(0, 99), r.randint(1, 9), r.choice(MV_EXTS)))
+    del toks[ntok:]
+    while len(toks) < ntok:
+        toks.insert(2, 't%d' % len(toks))
+    if r.random() < 0.12:
+        k = r.randrange(len(toks))
+        toks[k] = r.choice(MV_HOSTILE) + (str(i) if k == len(toks) - 1 else '')
+    return toks
+
+
+def mv_join(r, toks):
+    if r.random() < 0.5:
+        return ' '.join(toks)
+    return ''.join((r.choice(MV_SEPS) if k else '') + t for k, t in enumerate(toks))
+
+
+def gen_mv_field(r, lname, ntok, layout=None, n=None):
+    """One structured field [name, first, conts] in the given LAYOUT (see MV_LAYOUTS)."""
+    if layout is None:
+        layout = r.choice(MV_LAYOUTS[:1] * 3 + MV_LAYOUTS)
+    if n is None:
+        n = 1 if layout.startswith('single') else r.choice([2, 2, 3, 3, 4, 5])
+    items = [mv_join(r, mv_tokens(r, lname, ntok, i)) for i in range(n)]
+    name = r.choice(MV_SPELLINGS[lname])
+    if layout.startswith('cont') or layout.startswith('single-cont'):
+        first = r.choice([' ', '\t', '  ', ' \t']) if layout.endswith('blank-on-field-line') else ''
+        return [name, first, [r.choice(LEADS) + it + r.choice(TRAILS) for it in items]]
+    trail = r.choice([' ', '\t', '  ', ' \t ']) if layout.endswith('trailing-blank') else ''
+    return [name, r.choice(PADS_L) + items[0] + trail, [r.choice(LEADS) + it + r.choice(TRAILS) for it in items[1:]]]
+
+
+def gen_mv_paragraph(r, armor_p=0.5):
+    used = set()
+    para = []
+    names = r.sample(MV_TEXT_NAMES, r.randint(1, 5))
+    for name in names:
+        used.add(name.lower())
+        nc = r.choice([0, 1, 2, 3, 5]) if name in MV_LONG_NAMES else r.choice([0, 0, 0, 0, 1])
+        para.append([name, gen_first(r), [gen_cont(r) for _ in range(nc)]])
+    if r.random() < armor_p:
+        # ordinary text fields that MENTION armour words inside their lines
+        for _ in range(r.choice([1, 1, 2])):
+            f = para[r.randrange(len(para))]
+            k = r.random()
+            if k < 0.4:
+                f[1] = r.choice(PADS_L) + r.choice(ARMOR_FIRST) + r.choice(PADS_R)
+            else:
+                f[2].insert(r.randint(0, len(f[2])), r.choice(ARMOR_CONT))
+                if k > 0.8:
+                    f[2].insert(r.randint(0, len(f[2])), r.choice(ARMOR_CONT))
+    fields = r.sample(['files', 'checksums-sha1', 'checksums-sha256', 'checksums-sha512'], r.choice([1, 1, 2, 2, 3]))
+    for lname in fields:
+        ntok = r.choice([3, 5, 5]) if lname == 'files' else 3
+        para.insert(r.randint(0, len(para)), gen_mv_field(r, lname, ntok))
+    return para
+
+
+def gen_mv_doc(r):
+    n = r.choice([1, 1, 1, 1, 1, 2, 2, 3])
+    table = PROFILE_TABLES[r.choice(PROFILES)]
+    return [[[nm, f.translate(table), [c.translate(table) for c in cs]] for nm, f, cs in gen_mv_paragraph(r)] for _ in range(n)]
+
+
+def mv_grid_docs(seed, wide):
+    """Enumerated: every LAYOUT x every structured field (Files with 3 and with 5 tokens, Checksums-Sha1/256/512) x the place of the
+    field in its paragraph (first / between / last; quick: one place per combination, rotating) as single-paragraph documents, +
+    two-paragraph documents (every layout, the structured field last in the first and first in the second paragraph).
+    Yields (index, doc)."""
+    i = 0
+    for li, layout in enumerate(MV_LAYOUTS):
+        for fi, (lname, ntok) in enumerate(MV_FIELDS):
+            for place in ((0, 1, 2) if wide else ((li + fi + seed) % 3,)):
+                r = random.Random('C02-mvgrid/%d/%d' % (seed, i))
+                field = gen_mv_field(r, lname, ntok, layout)
+                other = gen_mv_field(r, MV_FIELDS[(fi + 2) % 5][0], MV_FIELDS[(fi + 2) % 5][1]) if MV_FIELDS[(fi + 2) % 5][0] != lname else None
+                before = [['Source', 'src', []], ['Changes', '', [' .', ' * x']]]
+                after = [['Version', '1.0-1', []]] + ([other] if other else [])
+                para = ([field] + before + after, before + [field] + after, before + after + [field])[place]
+                yield i, [para]
+                i += 1
+    for li, layout in enumerate(MV_LAYOUTS):
+        r = random.Random('C02-mvgrid2/%d/%d' % (seed, li))
+        (l1, n1), (l2, n2) = MV_FIELDS[(li + seed) % 5], MV_FIELDS[(li + seed + 1) % 5]
+        yield i, [[['Source', 'a', []], gen_mv_field(r, l1, n1, layout)],
+                  [gen_mv_field(r, l2, n2, layout), ['Source', 'b', [' c']]],
+                  [['Format', '1.8', []], gen_mv_field(r, l1, n1, MV_LAYOUTS[(li + 3) % 8]), gen_mv_field(r, l2, n2, MV_LAYOUTS[(li + 5) % 8])]][:2 + li % 2]
+        i += 1
+
+
+def armor_grid_docs(seed):
+    """Enumerated: every armour-word mention as (part of) a first line and as a continuation line of an ordinary text field -
+    first / between / last in its paragraph, next to a structured field - single-paragraph documents (all APIs, plain and
+    clearsigned) + two-paragraph documents with the mention last before / first after the paragraph boundary.  Yields (index, doc)."""
+    i = 0
+    n = max(len(ARMOR_FIRST), len(ARMOR_CONT))
+    for k in range(n):
+        f = ARMOR_FIRST[k % len(ARMOR_FIRST)]
+        c1, c2 = ARMOR_CONT[k % len(ARMOR_CONT)], ARMOR_CONT[(k + 5) % len(ARMOR_CONT)]
+        r = random.Random('C02-armorgrid/%d/%d' % (seed, k))
+        files = gen_mv_field(r, 'files', (3, 5)[k % 2], MV_LAYOUTS[k % 8])
+        a = ['Changes', f, [c1, ' z']] if k % 3 else ['Changes', f, []]
+        b = ['Description', ('d', '')[k % 2], [' y', c2] if k % 4 else [c2]]
+        para = [[a, ['Source', 's', []], b, files], [['Source', 's', []], a, files, b], [files, b, ['Mid', 'm', []], a]][k % 3]
+        yield i, [para]
+        i += 1
+    for k in range(0, n, 2):
+        f, c = ARMOR_FIRST[k % len(ARMOR_FIRST)], ARMOR_CONT[k % len(ARMOR_CONT)]
+        yield i, [[['A', '1', []], ['Changes', 'x', [c]]], [['Description', f, []], ['B', '2', []]]]
+        i += 1
+
+
+def mv_layout(first, conts):
+    """The layout class of a structured field, from the model."""
+    if not first.strip(' \t'):
+        return ('cont' if len(conts) > 1 else 'single-cont') + ('-blank-on-field-line' if first else '')
+    return ('mixed' if conts else 'single') + ('-trailing-blank' if first.rstrip(' \t') != first else '')
+
+
+def item_tokens(line):
+    """The whitespace-separated tokens of one item line (blank and tab are the only blanks of the domain)."""
+    return [t for t in line.replace('\t', ' ').split(' ') if t]
+
+
+def mv_items(first, conts):
+    """The list of item lines a structured field was written with: one token list per non-blank line, field line included."""
+    return [item_tokens(l) for l in [first] + list(conts) if l.strip(' \t')]
+
+
+def armor_mentions(first, conts):
+    """Where the lines of a text value mention an armour marker: set of ARMOR_POSITIONS."""
+    out = set()
+    for where, line in [('first', first)] + [('cont', c) for c in conts]:
+        if '-----' not in line:
+            continue
+        t = line.strip(' \t')
+        ms = list(ARMOR_MARK.finditer(t))
+        if not ms:
+            continue
+        if ms[0].start() == 0:
+            pos = 'whole' if ms[0].end() == len(t) else 'start'
+        else:
+            pos = 'end' if ms[-1].end() == len(t) else 'mid'
+        out.add('%s-%s' % (where, pos))
+    return out
+
+
 # ---------------------------------------------------------------------------
 # model side helpers
 
@@ -1076,16 +1275,24 @@ def model_value(first, conts):
     return first.strip(' \t') + ''.join('\n' + c for c in conts)
 
 
-def in_domain(doc):
-    """Defensive: a (replayed / shrunk) case outside the stated domain is not judged."""
+def in_domain(doc, mv=False):
+    """Defensive: a (replayed / shrunk) case outside the stated domain is not judged.  `mv`: the structured field names of Dsc /
+    Changes are admitted, with item-shaped values (see ASSUMPTIONS)."""
     bad_ctl = set('\r\x0b\x0c\x1c\x1d\x1e\x85\u2028\u2029\n')
     for para in doc:
         seen = set()
         if not para:
             return False
         for name, first, conts in para:
-            if not name or name[0] in '#-' or name.lower() in seen or name.lower() in STRUCTURED:
+            if not name or name[0] in '#-' or name.lower() in seen:
                 return False
+            if name.lower() in STRUCTURED:
+                if not mv:
+                    return False
+                # GUARD: at least one item; blank and tab are the only blanks (what str.split() and "whitespace-separated"
+                # agree on); an item on the field line has a non-blank first character anyway
+                if not mv_items(first, conts) or any(ch.isspace() and ch not in ' \t' for l in [first] + list(conts) for ch in l):
+                    return False
             if any(not (33 <= ord(c) <= 126) or c == ':' for c in name):
                 return False
             seen.add(name.lower())
@@ -1270,7 +1477,24 @@ def container(kind, lines, final_nl):
 
 
 def observe(obj):
-    return [[k, obj[k]] for k in obj]
+    out = []
+    for k in obj:
+        v = obj[k]
+        out.append([k, v if type(v) is str else exposed_items(v)])
+    return out
+
+
+def exposed_items(v):
+    """What a class exposes for a structured field, normalised to the LIST OF ITEMS (each item = the list of its tokens): a list
+    of record mappings (several item lines) and a single record mapping (one item on the field line) are both admitted.  Anything
+    else (and any str subclass) is handed on as it is."""
+    if isinstance(v, str):
+        return v
+    if hasattr(v, 'keys'):
+        return {'items': [[v[k] for k in v]], 'shape': 'mapping'}
+    if isinstance(v, (list, tuple)) and all(hasattr(rec, 'keys') for rec in v):
+        return {'items': [[rec[k] for k in rec] for rec in v], 'shape': 'list'}
+    return {'other': '%a' % (v,)}
 
 
 def diff(expected, got):
@@ -1292,6 +1516,11 @@ def diff(expected, got):
         for (k, ev), (_, gv) in zip(ep, gp):
             if ev == gv:
                 continue
+            if isinstance(ev, dict):
+                res = diff_items(ev, gv)
+                if res is None:
+                    continue
+                return (res[0], 'paragraph %d structured field %r: %s' % (pi, k, res[1]))
             if not isinstance(gv, str):
                 return ('value-not-a-string', 'paragraph %d field %r: got %r' % (pi, k, gv))
             el, gl = ev.split('\n'), gv.split('\n')
@@ -1309,6 +1538,28 @@ def diff(expected, got):
             # ascii(): values that differ only in code points (normalisation) print alike otherwise
             return (kind, 'paragraph %d field %r: expected %s' % (pi, k, show_pair(ev, gv)))
     return None
+
+
+def diff_items(ev, gv):
+    """Structured field: ev = {'want': items cut to the columns of the class, 'full': items as written}; gv = what observe() made
+    of the exposed value.  A class that exposes the field as TEXT is compared on the full token lists of its non-blank lines."""
+    if isinstance(gv, str):
+        got, want = [item_tokens(l) for l in gv.split('\n') if l.strip(' \t')], ev['full']
+    elif isinstance(gv, dict) and 'items' in gv:
+        got, want = gv['items'], ev['want']
+    else:
+        return ('structured-value-not-records', 'written as items %a, exposed as %s' % (ev['full'], gv.get('other') if isinstance(gv, dict) else gv))
+    if got == want:
+        return None
+    if len(got) < len(want):
+        kind = 'structured-item-lost'
+        if got == want[1:] and ev.get('first_on_field_line'):
+            kind = 'structured-item-on-the-field-line-lost'
+    elif len(got) > len(want):
+        kind = 'structured-item-invented'
+    else:
+        kind = 'structured-item-altered'
+    return (kind, 'expected the %d items %a, got the %d items %a' % (len(want), want, len(got), got))
 
 
 def show_pair(ev, gv, limit=400):
@@ -1461,6 +1712,19 @@ def size_tags(text, ctx=None):
     return tags
 
 
+def read_api(deb822, api, src):
+    """The paragraph objects API `api` reads from input object `src`."""
+    if api == 'iter_paragraphs':
+        return list(deb822.Deb822.iter_paragraphs(src))
+    if api == 'Deb822':
+        return [deb822.Deb822(src)]
+    if api == 'Dsc':
+        return [deb822.Dsc(src)]
+    if api == 'Changes':
+        return [deb822.Changes(src)]
+    return list(getattr(deb822, api.split('.')[0]).iter_paragraphs(src))
+
+
 def mini_reread(deb822, expected, lines, single):
     """Re-read of the text of a NON-primary output-route group: four containers x API, no decorations."""
     out = []
@@ -1498,10 +1762,19 @@ def enc_family(enc):
     return 'utf-8' if enc in UTF8_SPELLINGS else ('8bit' if enc in ASCII_COMPATIBLE_8BIT else enc)
 
 
-def scope(failing, executed):
-    """Names the form classes a failure is confined to (bounded vocabulary: dimension=value[+value...])."""
+def scope(failing, executed, by_api=False):
+    """Names the form classes a failure is confined to (bounded vocabulary: dimension=value[+value...]).  `by_api` ("mv" cases, where
+    the APIs do not all run on the same containers): the container dimension is judged among the forms of the failing APIs."""
     if len(failing) == len(executed):
         return 'all-forms'
+    if by_api:
+        fapis = set(f[4] for f in failing)
+        api_part = [] if fapis == set(f[4] for f in executed) else ['api=%s' % '+'.join(sorted(fapis))]
+        executed = [f for f in executed if f[4] in fapis]
+        if len(failing) == len(executed):
+            return api_part[0]
+        rest = scope(failing, executed)
+        return ','.join(([] if rest in ('all-forms', 'some-forms') else [rest]) + api_part) or 'some-forms'
     parts = []
     fu = set(unit_of(f[0]) for f in failing)
     au = set(unit_of(f[0]) for f in executed)
@@ -1598,6 +1871,47 @@ def evaluate(ctx, case, record=True):
     found = {}
     expected = [[[name, model_value(first, conts)] for name, first, conts in para] for para in doc]
     tmp = workdir(ctx)
+    # "mv" cases: what the gpg-aware classes must expose - structured fields as the list of items they were written with (cut to
+    # the columns of the class), every other field as for Deb822; `redump_ok`: every item has all the columns of the class (else the
+    # class holds incomplete records and its dump() refuses - outside the statement)
+    mv = case.get('mv')
+    exp_by_api = {}
+    redump_ok = {}
+    mv_tags, armor_tags = [], []
+    if mv:
+        for cls in ('Dsc', 'Changes'):
+            ok = True
+            exp = []
+            for para in doc:
+                ep = []
+                for name, first, conts in para:
+                    n = MV_COLUMNS[cls].get(name.lower())
+                    if n is None:
+                        ep.append([name, model_value(first, conts)])
+                        continue
+                    full = mv_items(first, conts)
+                    ok = ok and all(len(it) >= n for it in full)
+                    ep.append([name, {'want': [it[:n] for it in full], 'full': full,
+                                      'first_on_field_line': bool(first.strip(' \t')) and len(full) > 1}])
+                exp.append(ep)
+            exp_by_api[cls] = exp_by_api[cls + '.iter_paragraphs'] = exp
+            redump_ok[cls] = ok
+        for para in doc:
+            for name, first, conts in para:
+                if name.lower() in STRUCTURED:
+                    mv_tags.append(mv_layout(first, conts))
+                    if record and any('\t' in l.strip(' \t') for l in [first] + conts):
+                        ctx.count('mv:separator:tab')
+                    if record and any('  ' in l.strip(' \t') for l in [first] + conts):
+                        ctx.count('mv:separator:several-blanks')
+                else:
+                    armor_tags.extend(armor_mentions(first, conts))
+        mv_tags, armor_tags = sorted(set(mv_tags)), sorted(set(armor_tags))
+        if record:
+            for t in mv_tags:
+                ctx.count('mv:doc-with-layout:%s' % t)
+            for t in armor_tags:
+                ctx.count('armorword:doc-with:%s' % t)
 
     # -- build through __setitem__, write every paragraph through EVERY output route
     texts = dict((rt, []) for rt in ROUTES)       # route -> text per paragraph
@@ -1696,10 +2010,14 @@ def evaluate(ctx, case, record=True):
     base = []
     for i, dl in enumerate(dumps):
         if i:
-            base += [''] * r.choice([1, 1, 1, 2, 3])
+            gap = r.choice([1, 1, 1, 2, 3])
+            # GUARD ("mv" cases, see ASSUMPTIONS): ONE blank line between paragraphs, so that no comment-only block can stand
+            # between two blank lines
+            base += [''] * (1 if mv else gap)
         base += dl
     single = len(doc) == 1
     executed = []
+    redumped = []
     failures = {}     # kind -> list of (form, msg)
     # decorations are drawn ONCE per case, so that which forms fail is a function of the form classes only
     aparams = armour_params(r)
@@ -1717,6 +2035,8 @@ def evaluate(ctx, case, record=True):
                 ctx.count('feat:uni-armour-comment-header')
     c_base = with_comments(base, r, pool)
     c_blanks = with_comments(blanks, r, pool) if r.random() < 0.5 else blanks     # comments around the leading blank lines
+    if mv:
+        c_blanks = blanks        # GUARD ("mv" cases): no comment lines among the leading blank lines
     final_nl = r.random() < 0.75
     # drawn AFTER all older decorations, so that a recorded case keeps the decorations it had
     salt = r.getrandbits(16)
@@ -1727,6 +2047,7 @@ def evaluate(ctx, case, record=True):
     if utags:
         uni_features(ctx, doc, utags)
     unames = {}       # (api, form name) -> counter names of this document's classes
+    mnames = {}       # (api, armour) -> "mv" / armour-word counter names of this document
     marker_trail = bool(aparams['t1'] or aparams['t2'] or aparams['t3'])
     # "big" documents run a rotating third of the grid: two plain cells that differ in BOTH comments and leading blanks,
     # one armoured cell, half of the in-memory containers per cell (+ the rotating real-file forms of the cell)
@@ -1740,7 +2061,12 @@ def evaluate(ctx, case, record=True):
                 cell += 1
                 if big and ((com * 2 + lead != big_arm) if arm else ((com, lead) not in big_plain)):
                     continue
-                mem = CONTAINERS[(cell + (salt >> 6)) & 1::2] if big else CONTAINERS
+                if mv and single and (arm ^ com ^ lead ^ (salt >> 7)) & 1:
+                    # COST bound ("mv" cases run six APIs + the second round): single paragraphs go through two plain and two
+                    # armoured cells that between them hold all four comments x leading-blank combinations (which two alternates
+                    # from case to case), half of the in-memory containers per cell
+                    continue
+                mem = CONTAINERS[(cell + (salt >> 6)) & 1::2] if big or mv else CONTAINERS
                 if arm:
                     # the armour wraps the paragraph text *including its comments*; lines outside the signed
                     # payload (before BEGIN, armour headers, signature) are not deb822 text - no comments there
@@ -1757,7 +2083,8 @@ def evaluate(ctx, case, record=True):
                 # all four comments x leading-blank combinations (see rotation())
                 blobs = {}
                 conts = list(mem)
-                half, kind_bit, spell_bit = rotation(cell, salt)
+                # ("mv" cases: the cells of a case differ in BOTH comments and leading blanks - the two halves alternate with comments)
+                half, kind_bit, spell_bit = rotation(cell, salt ^ com if mv else salt)
                 if half == 0:
                     blobs['binfile'] = text.encode('utf-8')
                     conts.append('binfile')
@@ -1779,17 +2106,23 @@ def evaluate(ctx, case, record=True):
                     apis.append('Deb822')
                 if arm:
                     apis += ['Dsc', 'Changes']
+                if mv:
+                    # Dsc / Changes shaped documents: both classes, constructor (single paragraphs; PLAIN text too) and
+                    # iter_paragraphs (all), in every cell
+                    if single and not arm:
+                        apis += ['Dsc', 'Changes']
+                    apis += ['Dsc.iter_paragraphs', 'Changes.iter_paragraphs']
                 for cont in conts:
                     encfile = is_encfile(cont)
                     for api in apis:
                         form = (cont, arm, com, lead, api)
                         judged = True
-                        if encfile and api in ('Dsc', 'Changes'):
+                        if encfile and api in GPG_APIS:
                             enc = cont[3:]
                             if enc not in UTF8_SPELLINGS and enc not in ASCII_COMPATIBLE_8BIT:
                                 # utf-16: see ASSUMPTIONS (the gpg-aware classes look for the armour in the BYTES)
                                 judged = False
-                                if not record or salt % UNJUDGED_SAMPLE:
+                                if not record or salt % UNJUDGED_SAMPLE or api not in ('Dsc', 'Changes'):
                                     continue
                         src, closer = open_source(cont, lines, final_nl, blobs, written, tmp, tw_newline)
                         if not judged:
@@ -1849,31 +2182,107 @@ def evaluate(ctx, case, record=True):
                                 ctx.mon('M.uni')
                                 for nm in names:
                                     ctx.count(nm)
+                            if mv:
+                                names = mnames.get((api, arm))
+                                if names is None:
+                                    names = mnames[(api, arm)] = \
+                                        ['mv:%s:%s' % (t, api) for t in mv_tags] + \
+                                        ['armorword:%s:%s' % (('plain', 'armour')[arm], api)] * bool(armor_tags) + \
+                                        ['armorword:%s:%s' % (t, ('plain', 'armour')[arm]) for t in armor_tags]
+                                for nm in names:
+                                    ctx.count(nm)
+                                if mv_tags and api in GPG_APIS:
+                                    ctx.mon('M.mv')
+                                if armor_tags:
+                                    ctx.mon('M.armorword')
+                                    if cont in ('str', 'bytes'):
+                                        ctx.count('armorword:whole-document-as-one-%s:%s' % (cont, api))
+                        want = exp_by_api.get(api, expected)
                         try:
-                            if api == 'iter_paragraphs':
-                                got = [observe(p) for p in deb822.Deb822.iter_paragraphs(src)]
-                            elif api == 'Deb822':
-                                got = [observe(deb822.Deb822(src))]
-                            elif api == 'Dsc':
-                                got = [observe(deb822.Dsc(src))]
-                            else:
-                                got = [observe(deb822.Changes(src))]
+                            objs = read_api(deb822, api, src)
+                            got = [observe(o) for o in objs]
                         except Exception as e:
                             failures.setdefault('reparse-raises-%s' % type(e).__name__, []).append(
                                 (form, '%r while re-reading %s' % (e, show_lines(lines))))
                             continue
                         finally:
                             closer()
-                        res = diff(expected, got)
+                        res = diff(want, got)
                         if res is not None:
                             failures.setdefault(res[0], []).append((form, '%s; input lines %s' % (res[1], show_lines(lines))))
+                            continue
+                        if not mv or api not in GPG_APIS:
+                            continue
+                        if record:
+                            for ep, gp in zip(want, got):
+                                for (k, ev), (_, gv) in zip(ep, gp):
+                                    if isinstance(ev, dict):
+                                        ctx.count('mv:exposed-as:%s:%s' % (gv['shape'] if isinstance(gv, dict) else 'text', api))
+                        # -- dump + re-parse must keep the item lists (and everything else): the object the class built is written
+                        # by the class itself (rotating in-memory output routes) and read again through the same API
+                        nform = len(executed) + (salt >> 8)
+                        if nform % MV_REDUMP_EVERY:
+                            continue
+                        cls = api.split('.')[0]
+                        if not redump_ok[cls]:
+                            if record:
+                                ctx.count('mv:redump-not-applicable:items-shorter-than-the-columns-of:%s' % cls)
+                            continue
+                        k = nform // MV_REDUMP_EVERY
+                        # (an object read from a text file that declares an 8-bit encoding carries that encoding: its binary
+                        # routes without encoding= write that encoding, by design - they are used for the other forms only)
+                        rroutes = MV_REDUMP_ROUTES if not encfile or cont[3:] in UTF8_SPELLINGS else MV_REDUMP_ROUTES_EXPLICIT
+                        rroute = rroutes[k % len(rroutes)]
+                        rcont = CONTAINERS[(k // 2) % len(CONTAINERS)]
+                        redumped.append(form)
+                        if record:
+                            ctx.mon('M.mv.redump')
+                            ctx.count('mv:redump:%s' % api)
+                            ctx.count('mv:redump-route:%s' % rroute)
+                            for t in mv_tags:
+                                ctx.count('mv:redump:%s:%s' % (t, cls))
+                        try:
+                            dl = []
+                            for j, o in enumerate(objs):
+                                if j:
+                                    dl.append('')
+                                dl += dumped_lines(route_text(rroute, o, tmp, rr))
+                        except RouteFailure as e:
+                            failures.setdefault('after-dump-and-re-parse:' + e.kind.replace('/', '-'), []).append(
+                                (form, 'the %s object read from %s: %s' % (cls, show_lines(lines), e.msg)))
+                            continue
+                        try:
+                            got2 = [observe(o) for o in read_api(deb822, api, container(rcont, dl, True))]
+                        except Exception as e:
+                            failures.setdefault('after-dump-and-re-parse:reparse-raises-%s' % type(e).__name__, []).append(
+                                (form, '%r while re-reading (as %s) the dump %s of the %s object read from %s'
+                                 % (e, rcont, show_lines(dl), cls, show_lines(lines))))
+                            continue
+                        res = diff(want, got2)
+                        if res is not None:
+                            failures.setdefault('after-dump-and-re-parse:' + res[0], []).append(
+                                (form, '%s; the %s object read from %s was dumped (route %s) as %s and re-read as %s'
+                                 % (res[1], cls, show_lines(lines), rroute, show_lines(dl), rcont)))
+    if mv and record and single and not salt % 4:
+        # established, not judged (see ASSUMPTIONS): a comment-only block between blank lines in front of the paragraph
+        try:
+            got = [observe(deb822.Dsc(['', '# c', ''] + base))]
+            ctx.count('unjudged:gpg-api-comment-block-between-blank-lines:%s'
+                      % ('agree' if diff(exp_by_api['Dsc'], got) is None else 'differ'))
+        except Exception:
+            ctx.count('unjudged:gpg-api-comment-block-between-blank-lines:raise')
     for kind, fl in failures.items():
         forms = [f for f, _ in fl]
         # all output routes agree on the text (always, on the unchanged tree): the key names the input-form classes; if
         # they do not, it names the routes that wrote this text
-        key = '%s/%s' % (kind, scope(forms, executed) if route_note is None else 'output-route=' + route_note)
+        among = executed
+        if kind.startswith('after-dump-and-re-parse:'):
+            # second round: the key names API and armour only (the container is that of the FIRST read; bounded vocabulary)
+            among = sorted(set(('any', f[1], 0, 0, f[4]) for f in redumped))
+            forms = sorted(set(('any', f[1], 0, 0, f[4]) for f in forms))
+        key = '%s/%s' % (kind, scope(forms, among, bool(mv)) if route_note is None else 'output-route=' + route_note)
         found[key] = ('form (container, armour, comments, lead, api)=%r: %s  [%d of %d forms differ]'
-                      % (fl[0][0], fl[0][1], len(fl), len(executed)), len(fl))
+                      % (fl[0][0], fl[0][1], len(fl), len(among)), len(fl))
     return found
 
 
@@ -2153,7 +2562,7 @@ def shrink(ctx, case, key):
     budget = [12 if case.get('big') else 40]      # (a "big" evaluation is expensive)
 
     def still(c):
-        if budget[0] <= 0 or not in_domain(expand_doc(c['doc'])):
+        if budget[0] <= 0 or not in_domain(expand_doc(c['doc']), bool(c.get('mv'))):
             return False
         budget[0] -= 1
         try:
@@ -2163,7 +2572,7 @@ def shrink(ctx, case, key):
 
     cur = {'doc': [[_copy_item(x) for x in p] for p in case['doc']],
            'dump': case.get('dump', 'str'), 'deco': case.get('deco', 0)}
-    for k in ('uni', 'big', 'asm'):
+    for k in ('uni', 'big', 'asm', 'mv'):
         if k in case:
             cur[k] = case[k]
     changed = True
@@ -2240,17 +2649,34 @@ def cases(ctx):
     ra = ctx.rng('asm-docs')
     for i in range(ctx.size(ASM_DOCS['quick'], ASM_DOCS['thorough'])):
         yield {'doc': gen_asm_doc(ra, i), 'asm': 1, 'deco': ra.getrandbits(32)}
+    # "mv" class: Dsc / Changes shaped documents - structured fields in every layout, text fields mentioning armour words
+    for i, doc in mv_grid_docs(ctx.seed, not ctx.quick):
+        if ctx.mine(i + ctx.seed):
+            yield {'doc': doc, 'dump': DUMP_MODES[(i + i // 4 + ctx.seed) % 4], 'deco': 1700000 + i * 17 + ctx.seed, 'mv': 'layout-grid'}
+    for i, doc in armor_grid_docs(ctx.seed):
+        if ctx.mine(i + ctx.seed + 1):
+            yield {'doc': doc, 'dump': DUMP_MODES[(i + ctx.seed) % 4], 'deco': 2100000 + i * 19 + ctx.seed, 'mv': 'armour-word-grid'}
+    rm = ctx.rng('mv-docs')
+    for i in range(ctx.size(MV_DOCS['quick'], MV_DOCS['thorough'])):
+        for _ in range(20):
+            doc = gen_mv_doc(rm)
+            if in_domain(doc, True):
+                break
+        yield {'doc': doc, 'dump': DUMP_MODES[(i + ctx.shard) % 4], 'deco': rm.getrandbits(32), 'mv': 'random'}
 
 
 def run_case(ctx, case):
     compact = case['doc']
     doc = expand_doc(compact)
-    if not in_domain(doc):
+    if not in_domain(doc, bool(case.get('mv'))):
         ctx.count('skipped:out-of-domain')
         return
     if case.get('big'):
         ctx.count('doc:big')
         ctx.count('big:class:%s' % case['big'])
+    if case.get('mv'):
+        ctx.count('doc:mv')
+        ctx.count('mv:source:%s' % case['mv'])
     if case.get('asm'):
         ctx.count('doc:asm')
     else:
